@@ -15,10 +15,6 @@ structure RowsOK {α : Type} (x : Ext α) (sh : Nat → String) (a : Acq) (ci : 
   chans : ∀ c, c < a.channels.length → (trunc 7 (a.chan c) == a.chan ci) = (c == ci)
   /-- scan numbers survive `str` → 16-character field → `int` -/
   scans : ∀ s, s < a.nscans → x.readInt (trunc 16 (sh s)) = some (s : Int)
-  /-- `np.genfromtxt` cuts a sample row at a `#`: no sample name and no exported value contains one -/
-  sampleHash : ∀ s ∈ a.samples, hasHash s = false
-  valueHash : ∀ i, i < a.samples.length → ∀ s, s < a.nscans → ∀ e, e < a.elements.length → ∀ c, c < a.channels.length →
-    hasHash (a.value i s e c) = false
 
 def blankHdr : Hdr := { run := "", scan := "", name := "", type := "" }
 
@@ -133,7 +129,7 @@ theorem readRowsH_render {α : Type} (x : Ext α) (sh : Nat → String) (comma :
       ((List.range a.samples.length).map (fun i => a.samples.getD i "" :: "<Identifier>" ::
         ((enumRows a.nscans a.elements.length a.channels.length).map (fun x => a.value i x.1 x.2.1 x.2.2) ++ ["\n"])))
     = some (specImg x comma a ci) := by
-  obtain ⟨hm, hk, hnd, hlab, hci, hch, hsc, hsh, hvh⟩ := h
+  obtain ⟨hm, hk, hnd, hlab, hci, hch, hsc⟩ := h
   have hsel : (blankHdr :: blankHdr :: ((enumRows a.nscans a.elements.length a.channels.length).map (hdrOf sh a) ++ [eolHdr])).filter (colOk (a.chan ci))
       = (rowsSel a.nscans a.elements.length ci).map (hdrOf sh a) := by
     simp only [List.filter_cons, colOk_blank, colOk_eol, Bool.false_eq_true, if_false, List.filter_append, List.filter_nil,
@@ -181,7 +177,7 @@ theorem readRowsH_render {α : Type} (x : Ext α) (sh : Nat → String) (comma :
       exact (mem_rowsSel.mp hz).1
     · exact List.mem_map.mpr ⟨(a.nscans - 1, 0, ci), mem_rowsSel.mpr ⟨by simp; omega, hk, rfl⟩, rfl⟩
   -- the sample rows as `genfromtxt` sees them
-  have hlines : gfLines comma ((List.range a.samples.length).map (fun i => a.samples.getD i "" :: "<Identifier>" ::
+  have hlines : gfLinesWith gfSplit comma ((List.range a.samples.length).map (fun i => a.samples.getD i "" :: "<Identifier>" ::
         ((enumRows a.nscans a.elements.length a.channels.length).map (fun x => a.value i x.1 x.2.1 x.2.2) ++ ["\n"])))
       = (List.range a.samples.length).map (fun i => lstrip (fixDec comma (a.samples.getD i "")) :: "<Identifier>" ::
         ((enumRows a.nscans a.elements.length a.channels.length).map (fun x => fixDec comma (a.value i x.1 x.2.1 x.2.2)) ++ [""])) := by
@@ -191,15 +187,6 @@ theorem readRowsH_render {α : Type} (x : Ext α) (sh : Nat → String) (comma :
       simp only [List.map_cons, List.map_append, List.map_map, List.map_nil, fixDec_ident, fixDec_eol]
       have := gfSplit_line (fixDec comma (a.samples.getD i ""))
         ("<Identifier>" :: (enumRows a.nscans a.elements.length a.channels.length).map (fun x => fixDec comma (a.value i x.1 x.2.1 x.2.2)))
-        (by
-          intro g hg
-          rcases List.mem_cons.mp hg with hg | hg
-          · rw [hg, hasHash_fixDec]; exact hsh _ (sample_mem a i hi')
-          · rcases List.mem_cons.mp hg with hg | hg
-            · rw [hg]; exact hasHash_ident
-            · obtain ⟨y, hy, rfl⟩ := List.mem_map.mp hg
-              obtain ⟨h1, h2, h3⟩ := mem_enumRows.mp hy
-              rw [hasHash_fixDec]; exact hvh i hi' y.1 h1 y.2.1 h2 y.2.2 h3)
       simpa [Function.comp_def] using this
     · intro i _; rfl
   have hdata : ∀ i : Nat,
@@ -232,7 +219,7 @@ theorem readRowsH_render {α : Type} (x : Ext α) (sh : Nat → String) (comma :
     | nil => rw [hr] at hmem0; simp at hmem0
     | cons _ _ => rfl
   have h4 : ¬ ((a.nscans : Int) < 0) := by omega
-  unfold readRowsH
+  unfold readRowsH readRowsHWith
   rw [hany, hsel, hlines]
   simp only [Bool.not_true, Bool.false_eq_true, if_false, h1, hscan, hnames, hw, h4, Int.toNat_natCast]
   simp only [List.map_map, Function.comp_def, hdata, List.any_map, List.length_map, bne_self_eq_false]
@@ -286,7 +273,7 @@ theorem hdr_render (sh : Nat → String) (a : Acq) (cells : List (Nat × Nat × 
 theorem readRows_render_aux {α : Type} (x : Ext α) (sh : Nat → String) (comma : Bool) (a : Acq) (ci : Nat)
     (h : RowsOK x sh a ci) :
     readRows x comma (a.chan ci) (renderRows sh a) = some (specImg x comma a ci) := by
-  unfold renderRows readRows
+  unfold renderRows readRows readRowsWith
   simp only [List.cons_append, List.nil_append, List.getD_cons_zero, List.getD_cons_succ, List.length_cons, List.length_append,
     List.length_map, List.length_nil, Nat.max_self, List.drop_succ_cons, List.drop_zero]
   rw [bcast_self _ _ (by simp), bcast_self _ _ (by simp)]
